@@ -900,7 +900,7 @@ def r_scope_otherfn(T, D):
 
 def r_undefined_field(T, D):
     pre = ["let zp: P = P { x: 1, y: 2 }"]
-    return [("field zp.nosuch", pre, "zp.nosuch"), ("field zp.z", pre, "zp.z"), ("field zp.X", pre, "zp.X"),
+    return [("field zp.nosuch", pre, "zp.nosuch"), ("field zp.z", pre, "zp.z"), ("field zp.w", pre, "zp.w"),
             ("field zp.xx", pre, "zp.xx")]
 
 
